@@ -242,6 +242,17 @@ func (s *Solver) define(c *Ctx, root *Term) {
 			for i := 0; i < n-1; i++ {
 				s.buf.WriteByte(')')
 			}
+		case OpAdd:
+			n := len(t.Args)
+			for i := 0; i < n-1; i++ {
+				s.buf.WriteString("(bvadd ")
+				s.buf.WriteString(s.ref(t.Args[i]))
+				s.buf.WriteByte(' ')
+			}
+			s.buf.WriteString(s.ref(t.Args[n-1]))
+			for i := 0; i < n-1; i++ {
+				s.buf.WriteByte(')')
+			}
 		case OpBvXor:
 			n := len(t.Args)
 			for i := 0; i < n-1; i++ {
